@@ -56,6 +56,9 @@ def run(ck):
     ck.clause("C14.5", "the join score depends on the two segments and the configuration only (no remembered state, no id())")
     join_score(ck)
     dp(ck)
+    ck.clause("C14.7", "the chainer keeps nothing from one call to the next: DP tables and links are local to a call (as C09.3 / C10.1)")
+    from .c09 import persistent_state
+    persistent_state(ck, "C14.7")
 
 
 NEG_INF_FORMS = None
@@ -523,6 +526,25 @@ def dp(ck):
                      "an early return hands back all empty segments and happens only when there is no non-empty segment",
                      found=f"return {T.show(v)[:120]} when " + "; ".join(("" if tv else "not ") + T.show(c)[:100] for c, tv in conds),
                      required="return [s for s in segments if s.empty] only if there is no non-empty segment")
+            continue
+        if v[0] == "concat" and not is_final:
+            # an early return of segments + empties that did not go through the DP: only right when there is nothing to choose
+            # between - at most one non-empty segment
+            n_ord = None
+            for x in T.subterms(v):
+                if x[0] == "call" and x[1] == "sorted":
+                    n_ord = T.mk_call("len", [x])
+            single = False
+            if n_ord is not None:
+                for f_, tv_ in pa.facts.items():
+                    if (f_ == T.mk_eq(n_ord, C(1)) and tv_) or (f_ == T.mk_lt(C(1), n_ord) and tv_ is False) or \
+                            (f_ == T.mk_le(n_ord, C(1)) and tv_):
+                        single = True
+            ck.judge(single, "C14.4", short(fn) + ":early-return", w,
+                     "segments are handed back without running the DP only when there is at most one non-empty segment (otherwise a "
+                     "segment whose join penalty exceeds its score, or two that overlap by more than half, stay in the chain)",
+                     found=f"return {T.show(v)[-160:]} when " + "; ".join(("" if tv else "not ") + T.show(c)[:100] for c, tv, _ in pa.state.assumptions),
+                     required="the chain selected by the DP (or a single non-empty segment)")
             continue
         if v[0] == "concat":
             n_final += 1
